@@ -298,11 +298,11 @@ pub fn cmp_bds(ctx: &mut Ctx, b: &[u8], bds: &BDS) {
 }
 
 /// decoded frame against the specification, field by field
-pub fn cmp_frame(ctx: &mut Ctx, b: &[u8], f: &Frame) {
+pub fn cmp_df(ctx: &mut Ctx, b: &[u8], fdf: &DF) {
     let df = df_of(b[0]) as u64;
     let need = need_bytes(df as u8);
     let last24 = bits(b, need * 8 - 23, 24);
-    match &f.df {
+    match fdf {
         DF::ShortAirAirSurveillance { vs, cc, unused, sl, unused1, ri, unused2, altitude, parity } => {
             vcheck!(ctx, df == 0, "[C02] format 0 selects short air-air surveillance");
             vcheck!(ctx, *vs as u64 == bits(b, 6, 1), "[C04] DF0: VS == frame bit 6");
@@ -385,7 +385,6 @@ pub fn cmp_frame(ctx: &mut Ctx, b: &[u8], f: &Frame) {
             vcheck!(ctx, cap_id(capability) == bits(b, 6, 3) && cap_variant_ok(capability, bits(b, 6, 3)), "[C04] DF24-31: capability == frame bits 6-8");
             vcheck!(ctx, icao_u32(icao) == bits(b, 9, 24), "[C04] DF24-31: announced address == frame bits 9-32");
             vcheck!(ctx, *type_code as u64 == bits(b, 33, 5), "[C04] DF24-31: type code == frame bits 33-37");
-            vcheck!(ctx, *adsb_data == bits(b, 38, 51), "[C04] DF24-31: data == frame bits 38-88");
             vcheck!(ctx, icao_u32(parity) == last24, "[C04] DF24-31: AP == the frame's last 24 bits");
         }
     }
@@ -421,7 +420,7 @@ pub fn obl_frame(s: &mut Src, ctx: &mut Ctx, len: usize, b0_lo: u8, b0_hi: u8, b
                     {
                         vcheck!(ctx, f.crc == syndrome(&b[..need], need), "[C03] checksum == Mode S parity syndrome (bitwise polynomial division)");
                     }
-                    cmp_frame(ctx, &b[..need], f);
+                    cmp_df(ctx, &b[..need], &f.df);
                 }
             }
             Err(_) => {
@@ -499,13 +498,72 @@ pub fn obl_bds(s: &mut Src, ctx: &mut Ctx, b4_lo: u8, b4_hi: u8) {
     }
 }
 
-/// experiment
-pub fn obl_x_frame_only(s: &mut Src, ctx: &mut Ctx, len: usize, b0: u8) {
+/// Contract of `DF::from_reader_with_ctx` (the structural decoder behind `Frame::from_bytes`) on
+/// a complete frame: byte 0 = b0 and (when b4 >= 0) byte 4 = b4 concrete, every other bit symbolic.
+/// C02: Ok <=> supported format and in-range operational status; C04/C06/C07/C08/C09/C10: fields.
+pub fn obl_df(s: &mut Src, ctx: &mut Ctx, b0: u8, b4: i32) {
+    let need = need_bytes(df_of(b0));
     let mut b = [0u8; 14];
+    s.fill(&mut b[..need]);
+    b[0] = b0;
+    if b4 >= 0 {
+        b[4] = b4 as u8;
+    }
+    let buf = &b[..need];
+    let mut c = Cursor::new(buf);
+    let mut r = Reader::new(&mut c);
+    let got = DF::from_reader_with_ctx(&mut r, ());
+    let acc = accept(buf);
+    vnote!(ctx, "frame {:02x?} -> accept(spec)={} result={:?} bits_read={}", buf, acc, got, r.bits_read);
+    match &got {
+        Ok(d) => {
+            vcheck!(ctx, acc, "[C02] a frame is produced only for a supported format and an in-range operational status");
+            if acc {
+                if df_of(b0) != 19 && df_of(b0) != 20 {
+                    vcheck!(ctx, r.bits_read == need * 8, "[C04] the structural decoder consumes the whole frame (56 / 112 bits)");
+                }
+                cmp_df(ctx, buf, d);
+            }
+        }
+        Err(_) => {
+            vcheck!(ctx, !acc, "[C02] every complete frame of a supported format is accepted (except out-of-range operational status)");
+        }
+    }
+}
+
+/// Contract of `Frame::from_bytes` restricted to what the wrapper adds to the structural decoder:
+/// acceptance, the downlink format variant, and the checksum window (C02 / C03).  `len` may exceed
+/// the frame length (trailing bytes must not matter) or fall short of it (alloc build only).
+pub fn obl_frame_crc(s: &mut Src, ctx: &mut Ctx, len: usize, b0: u8, b4: i32) {
+    let mut b = [0u8; 32];
     s.fill(&mut b[..len]);
     if len > 0 {
         b[0] = b0;
     }
-    let r = Frame::from_bytes(&b[..len]);
-    vcheck!(ctx, r.is_ok() == (len >= 14), "[X] ok iff complete");
+    if b4 >= 0 && len > 4 {
+        b[4] = b4 as u8;
+    }
+    let buf = &b[..len];
+    let r = Frame::from_bytes(buf);
+    let acc = accept(buf);
+    vnote!(ctx, "frame {:02x?} -> accept(spec)={} result={:?}", buf, acc, r);
+    match &r {
+        Ok(f) => {
+            vcheck!(ctx, acc, "[C02] a frame is produced only for a supported format, a complete buffer and an in-range operational status");
+            if acc {
+                let need = need_bytes(df_of(b[0]));
+                let win = crc::modes_checksum(&b[..need], need * 8);
+                vcheck!(ctx, matches!(win, Ok(v) if v == f.crc), "[C03,C02] checksum is computed over exactly the first 7/14 bytes of the buffer");
+                #[cfg(not(kani))]
+                {
+                    vcheck!(ctx, f.crc == syndrome(&b[..need], need), "[C03] checksum == Mode S parity syndrome (bitwise polynomial division)");
+                }
+                let id = f.df.deku_id();
+                vcheck!(ctx, match id { Ok(v) => v == df_of(b[0]), Err(_) => df_of(b[0]) >= 24 }, "[C02] the decoded variant is the one selected by the first five bits");
+            }
+        }
+        Err(_) => {
+            vcheck!(ctx, !acc, "[C02] every complete frame of a supported format is accepted (except out-of-range operational status)");
+        }
+    }
 }
